@@ -599,7 +599,7 @@ fn mime_from_suffix(suffix: &str) -> &'static str {
         "png" => "IMAGE_PNG",
         "svg" => "IMAGE_SVG",
         "woff" => "FONT_WOFF",
-        "woff2" => "FONT_WOFF",
+        "woff2" => "FONT_WOFF2",
         _ => "APPLICATION_OCTET_STREAM",
     }
 }
@@ -608,7 +608,7 @@ fn mime_from_suffix(suffix: &str) -> &'static str {
 fn mime_from_suffix(suffix: &str) -> &'static str {
     match suffix.to_lowercase().as_ref() {
         "css" => "CSS",
-        "html" | "htm" => "CSS",
+        "html" | "htm" => "HTML",
         "ico" => "ICO",
         "jpg" | "jpeg" => "JPEG",
         "js" | "jsonp" => "JAVASCRIPT",
@@ -618,7 +618,7 @@ fn mime_from_suffix(suffix: &str) -> &'static str {
         "txt" => "PLAIN",
         "wasm" => "WASM",
         "xml" => "XML",
-        _ => "mime::BYTE_STREAM",
+        _ => "BYTE_STREAM",
     }
 }
 
